@@ -1,6 +1,7 @@
 import LospanVerif.Basic
 import LospanVerif.Model.Gateway
 import LospanVerif.Driver.PhyIO
+import LospanVerif.Model.Eui
 /- Driver handlers for the gateway engine (stateful: registry, switch, PULL ports). -/
 namespace LospanVerif
 namespace Driver
@@ -86,6 +87,17 @@ def handleGw (g : GwDrv) : List String → GwDrv × String
       (g, s)
     | _, _, _, _, _ => (g, "bad-args")
   | _ => (g, "bad-args")
+
+/-- `eui.new <prefix hex, 3..5 octets> <netid> <counter>` -/
+def handleEui : List String → String
+  | [pf, nid, c] =>
+    match hx pf, nat? nid, nat? c with
+    | some p, some n, some k =>
+      let size := if p.length = 3 then Model.Eui.maLarge else if p.length = 4 then Model.Eui.maMedium else Model.Eui.maSmall
+      let m : Model.Eui.MA := ⟨(p ++ zeros 5).take 5, size⟩
+      s!"eui={xh (Model.Eui.newEUI m n k)} inspace={b01 (decide (k ≤ Model.Eui.maxID))} maxnet={Model.Eui.maxNetID size}"
+    | _, _, _ => "bad-args"
+  | _ => "bad-args"
 
 end Driver
 end LospanVerif
